@@ -85,3 +85,29 @@ Print Assumptions C20_code_flush_outgoing_tie.
 Theorem C20_code_handshake_timeout_value : ltac:(let t := type of @EquivTls.handshake_timeout_value in exact t).
 Proof. exact (@EquivTls.handshake_timeout_value). Qed.
 Print Assumptions C20_code_handshake_timeout_value.
+
+(* ---- tie to the code: client/session.py - one connection attempt per call, with the context the constructor built (a failed handshake is reported, never retried with other TLS settings) (coq/Equiv/EquivSession.v): re-checked here against the definitions regenerated from /repo's working tree; see DESIGN.md 11.8 ---- *)
+From NV Require Equiv.EquivSession.
+Theorem C20_code_init_tie : ltac:(let t := type of @EquivSession.init_tie in exact t).
+Proof. exact (@EquivSession.init_tie). Qed.
+Print Assumptions C20_code_init_tie.
+
+Theorem C20_code_get_single_tie : ltac:(let t := type of @EquivSession.get_single_tie in exact t).
+Proof. exact (@EquivSession.get_single_tie). Qed.
+Print Assumptions C20_code_get_single_tie.
+
+Theorem C20_code_upload_tie : ltac:(let t := type of @EquivSession.upload_tie in exact t).
+Proof. exact (@EquivSession.upload_tie). Qed.
+Print Assumptions C20_code_upload_tie.
+
+Theorem C20_code_get_single_connect_failure : ltac:(let t := type of @EquivSession.get_single_connect_failure in exact t).
+Proof. exact (@EquivSession.get_single_connect_failure). Qed.
+Print Assumptions C20_code_get_single_connect_failure.
+
+Theorem C20_code_upload_connect_failure : ltac:(let t := type of @EquivSession.upload_connect_failure in exact t).
+Proof. exact (@EquivSession.upload_connect_failure). Qed.
+Print Assumptions C20_code_upload_connect_failure.
+
+Theorem C20_code_get_single_close_once : ltac:(let t := type of @EquivSession.get_single_close_once in exact t).
+Proof. exact (@EquivSession.get_single_close_once). Qed.
+Print Assumptions C20_code_get_single_close_once.
